@@ -154,23 +154,29 @@ func checkC16(p *Prog, r *Report) {
 	dli := p.LookupIface("api", "DeviceLocalInterface")
 	for _, fn := range p.ImplsOf(dli, "RemoveEntity") {
 		var stopCall *ssa.Call
-		forEachCall(fn, func(site ssa.CallInstruction) {
-			if c, ok := site.(*ssa.Call); ok && calleeIsIfaceMethod(&c.Call, hmi, "StopHeartbeat") {
-				stopCall = c
+		base := FnName(fn)
+		ok := false
+		p.InScope(fn, func() { // the stop may sit in an extracted helper of RemoveEntity
+			forEachCall(fn, func(site ssa.CallInstruction) {
+				if c, isCall := site.(*ssa.Call); isCall && calleeIsIfaceMethod(&c.Call, hmi, "StopHeartbeat") {
+					stopCall = c
+				}
+			})
+			if stopCall == nil {
+				return
+			}
+			ok = strings.HasPrefix(Path(stopCall.Call.Value), "param:") && strings.HasSuffix(Path(stopCall.Call.Value), ".HeartbeatManager()")
+			for _, g := range Guards(stopCall.Block()) {
+				x, trueNil, isNil := nilTest(g.Cond)
+				if isNil && trueNil != g.Val && strings.HasSuffix(Path(x), ".HeartbeatManager()") {
+					continue
+				}
+				ok = false
 			}
 		})
-		base := FnName(fn)
 		if stopCall == nil {
 			r.Fail("R8", base, p.Pos(fn.Pos()), "no StopHeartbeat call")
 			continue
-		}
-		ok := strings.HasPrefix(Path(stopCall.Call.Value), "param:") && strings.HasSuffix(Path(stopCall.Call.Value), ".HeartbeatManager()")
-		for _, g := range Guards(stopCall.Block()) {
-			x, trueNil, isNil := nilTest(g.Cond)
-			if isNil && trueNil != g.Val && strings.HasSuffix(Path(x), ".HeartbeatManager()") {
-				continue
-			}
-			ok = false
 		}
 		r.Check("R8", base, ok, p.InstrPos(stopCall), "StopHeartbeat is called on the removed entity's manager, conditional only on the manager being present")
 	}
